@@ -40,26 +40,46 @@ def ltStart (E : List Entry) : List Hash → List Entry → Option (List Entry)
       | none => none
       | some s => ltStart E cs s
 
+inductive IterStart where
+  | ok (start : List Entry)
+  | errLTE
+  | errLT
+deriving Repr, DecidableEq
+
+/-- the starting entries of the traversal: the given `LTE` entries, the predecessors of the `LT`
+    bound, or the sorted heads -/
+def iterStart (l : Log) (o : IterOpts) : IterStart :=
+  match o.lte with
+  | some cs => (match lookupAll l.entries cs with | some s => .ok s | none => .errLTE)
+  | none =>
+    match o.lt with
+    | some cs => (match ltStart l.entries cs (sortedHeads l) with | some s => .ok s | none => .errLT)
+    | none => .ok (sortedHeads l)
+
+def iterEnd (o : IterOpts) : Option Hash := match o.gte with | some h => some h | none => o.gt
+
+def iterAmount (o : IterOpts) : Int := o.amount.getD (-1)
+
+/-- the traversal is limited only when there is no lower bound -/
+def iterCount (o : IterOpts) : Int := if iterEnd o = none ∧ o.amount.isSome then iterAmount o else -1
+
+/-- after the traversal: drop the exclusive lower bound itself ... -/
+def iterDropGt (o : IterOpts) (ents : List Entry) : List Entry :=
+  if o.gt.isSome ∧ ents.length > 0 then ents.dropLast else ents
+
+/-- ... then keep the `amount` entries nearest the lower bound -/
+def iterKeepLast (o : IterOpts) (ents1 : List Entry) : List Entry :=
+  if (o.gt.isSome ∨ o.gte.isSome) ∧ iterAmount o > -1 ∧ iterAmount o < ents1.length
+  then ents1.drop (ents1.length - (iterAmount o).toNat) else ents1
+
+def iterTrim (o : IterOpts) (ents : List Entry) : List Entry := iterKeepLast o (iterDropGt o ents)
+
 def iterator (l : Log) (o : IterOpts) : IterResult :=
   if o.amount = some 0 then .ok [] true else
-  let amount : Int := o.amount.getD (-1)
-  let start0 := sortedHeads l
-  let startR : Except IterResult (List Entry) :=
-    match o.lte with
-    | some cs => (match lookupAll l.entries cs with | some s => .ok s | none => .error .errLTE)
-    | none =>
-      match o.lt with
-      | some cs => (match ltStart l.entries cs start0 with | some s => .ok s | none => .error .errLT)
-      | none => .ok start0
-  match startR with
-  | .error r => r
+  match iterStart l o with
+  | .errLTE => .errLTE
+  | .errLT => .errLT
   | .ok start =>
-    let endHash : Option Hash := match o.gte with | some h => some h | none => o.gt
-    let count : Int := if endHash = none ∧ o.amount.isSome then amount else -1
-    let ents := traverseG l.entries (before l.sortFn) (omFromList start) count endHash
-    let ents1 := if o.gt.isSome ∧ ents.length > 0 then ents.dropLast else ents
-    let ents2 := if (o.gt.isSome ∨ o.gte.isSome) ∧ amount > -1 ∧ amount < ents1.length
-                 then ents1.drop (ents1.length - amount.toNat) else ents1
-    .ok ents2 true
+    .ok (iterTrim o (traverseG l.entries (before l.sortFn) (omFromList start) (iterCount o) (iterEnd o))) true
 
 end Model
